@@ -124,6 +124,22 @@ def run(chk):
                 chk.known_hits["F20"] = chk.known_hits.get("F20", 0) + 1
                 continue
             chk.violate("expression value differs from integer mathematics", {"op": op, "text": text}, exp, il)
+    # ------------- bounds at the top of usize: an error, never a wrapped bound (F49, repaired) and never a crash
+    edge = ["0xab[0xffffffffffffffff:0]", "0xab[0xffffffffffffffff:0xffffffffffffffff]", "(1 + 2)[0xffffffffffffffff:3]",
+            "0xab[0x10000000000000000:0]", "0xab[3:0xffffffffffffffff]", "sizeof(0xab[0xffffffffffffffff:0])"]
+    eops = ["expr " + fw.hx(t) for t in edge]
+    eimpl = fw.run_oracle_resilient(eops, "c05x")
+    emodel = fw.run_model(eops, "c05x")
+    for t, op, a, m in zip(edge, eops, eimpl, emodel):
+        chk.evaluations += 1
+        il = impl_line(a)
+        if il != m:
+            chk.disagree("expr " + t, m, il)
+        res = il.split(" | ")[-1] if " | " in il else il
+        chk.count("edge_slice")
+        if a.get("panic") is not None or a.get("died") or not (res.startswith("err") or res.startswith("parse-err")):
+            chk.violate("a slice bound at the top of usize is not diagnosed", {"op": op, "text": t}, "err", il if "panic" not in a else a)
+    chk.traces += len(eops)
     for j in (0, len(cases) // 2, len(cases) - 1):
         chk.sample({"expr": cases[j][1], "impl": impl_line(impl[j]), "model": model[j]})
     chk.traces += len(ops)
